@@ -152,7 +152,7 @@ def main():
                                        "sched": r.get("sched"), "faults": dict(r.get("faults", {}))})
             for k in r.get("known_outcomes", ()):  # e.g. kernel faults independent of config
                 out["known_outcomes"].hit(k)
-        if want_per_run:
+        if want_per_run or idx < cfg.get("offset0", 0) + cfg.get("per_run_upto", 0):
             out["per_run"].append({"index": idx, "tape": tape.digest(),
                                    "sched": (rec["result"] or {}).get("digest") if rec["result"] else None,
                                    "outcome": outcome_digest(rec),
